@@ -36,7 +36,7 @@ COMPONENTS = {
 ASSUMPTIONS = ["reference order = plain recursive lexicographic enumeration, Lehmer-code rank (ref/order.py)",
                "str round trip only for length <= 10, integer notation only where a leading zero is not lost"]
 EXPECTED_PROBES = ["memo_hit", "memo_equal_distinct_key", "after_flood", "after_clear", "interleaved_generators", "boundary_rank",
-                   "ties", "error_case", "mesh_of_length", "first_generator", "interrupted_call"]
+                   "ties", "error_case", "mesh_of_length", "first_generator", "interrupted_call", "interrupted_generator"]
 
 
 def plan(tier):
@@ -119,7 +119,11 @@ def gen_case(rng, tier):
         elif r < 0.32 and live:
             iid = rng.choice(live)
             rr = rng.random()
-            if rr < 0.7:
+            if rr < 0.08:
+                # the consumer is interrupted while the generator is producing
+                ops.append({"op": "iter_interrupt", "id": iid, "k": rng.choice([3, 24, 200]), "at": int(10 ** rng.uniform(0, 2.5))})
+                live.remove(iid)
+            elif rr < 0.7:
                 ops.append({"op": "iter_step", "id": iid, "k": rng.choice([1, 2, 3, 7, 24, 120, 600])})
             elif rr < 0.9:
                 ops.append({"op": "iter_drain", "id": iid})
@@ -303,6 +307,26 @@ def execute(case):
                                      f"{li.meta['kind']}({li.meta['arg']}) stopped after {li.meta['checked']} items, next should be {extra}")
                 li.items = []  # checked incrementally; keep memory flat
                 abst.append((kind, len(others)))
+            elif kind == "iter_interrupt":
+                import os  # pylint: disable=import-outside-toplevel
+
+                li = hist.iters.get(op["id"])
+                if li is None or li.exhausted or li.closed:
+                    continue
+
+                def pull(it=li.it, k=op["k"]):
+                    for _ in range(k):
+                        try:
+                            next(it)
+                        except StopIteration:
+                            return
+
+                status, _r, _n = histsim.run_interruptible(pull, op["at"], [os.path.join(core.repo_dir(), "permuta") + os.sep])
+                if status == "interrupted":
+                    out.fault("interrupted_call")
+                    out.probe("interrupted_generator")
+                hist.abandon(op["id"])  # a generator that saw an exception is finished; nothing more is asked of it
+                hist.log.add("iter_interrupt", op["id"], status)
             elif kind == "iter_abandon":
                 hist.abandon(op["id"])
             elif kind == "unrank":
